@@ -6,21 +6,30 @@ CHECK = {
              "real discard/discard_subsequence/Initializer to all unit + dense states and compared "
              "with T^n computed by independent matrix powering; composite 64-bit counts; Weyl "
              "arithmetic; discard(n) vs n draws for all n<=N; ord(T)=2^160-1; reseed_rng for all "
-             "(event,slots,slot) in the bound; GenerateCanonical32<float> over all 2^32 words and "
-             "<double> over upper words x extreme lower words. non-trivial = a distinct case group "
+             "(event,slots,slot) in the bound; the Initializer with every single-digit subsequence x "
+             "4 seeds x a 64-bit offset lattice (0, 5, 2^32-1, 2^32, 2^32+5, 2^63, 2^64-1); "
+             "GenerateCanonical32<float> over all 2^32 words and "
+             "<double> over upper words x extreme lower words; generate_canonical<float/double>"
+             "(XorwowRngEngine) with the real engine forced to yield boundary words (W,L). non-trivial = a distinct case group "
              "(polynomial index x digit, count, reseed configuration, word block) that executed."),
     "assumptions": [
         "host build, XORWOW engine (CELERITAS_CORE_RNG=xorwow)",
         "discard_subsequence is private and called with -fno-access-control; the public "
         "Initializer path is checked as well",
+        "the seeding step s0(seed) (SplitMix64) is taken from the real Initializer with subsequence = "
+        "offset = 0; only 'not all-zero' is demanded of it",
+        "engine canonical path: double-precision build (real_type = double); the forced words are "
+        "verified by drawing them from the real engine before the canonical call",
         "disjointness of streams follows from distinct subsequence indices < 2^64, segment length "
         "2^67 and full period 2^160-1 (all three checked) provided one (event,slot) draws < 2^67 "
         "numbers",
     ],
     "bounds": {"quick": {"seq_n": 4096, "reseed_events": 12, "reseed_slots": 6,
-                         "double_upper_stride": 64},
+                         "double_upper_stride": 64,
+                         "init_offsets": 7, "engine_canonical_W": 10, "engine_canonical_L": 7},
                "thorough": {"seq_n": 65536, "reseed_events": 64, "reseed_slots": 16,
-                            "double_upper_stride": 1}},
+                            "double_upper_stride": 1,
+                            "init_offsets": 7, "engine_canonical_W": 520, "engine_canonical_L": 7}},
     "parts": [
         {"name": "rng", "harness": "c13_rng", "flavour": "rel", "cflags": ["-fno-access-control"],
          "shards": {"quick": 16, "thorough": 16}, "deadline": {"quick": 120, "thorough": 900}},
